@@ -207,13 +207,22 @@ Definition smap_rx (st : dev_state) (now : Z) (net : option N) (m : list N) (a :
   else (st, []).
 
 (* ---------- NetworkServiceElement on a device with one adapter ---------- *)
-Fixpoint flush_pending (src : Z) (nets : list Z) (p : list (N * (option (N * list N) * apdu)))
+(* `for dnet in npdu.iartnNetworkList: pending_npdus = sap.pending_nets.get(dnet)`: network by network in the order of
+   the message, the replies of one network oldest first, each to the router that spoke *)
+Fixpoint flush_net (src : Z) (n : Z) (p : list (N * (option (N * list N) * apdu)))
   : list (N * (option (N * list N) * apdu)) * list dout :=
   match p with
   | [] => ([], [])
-  | (n, (rt, a)) :: r =>
-      let '(keep, o) := flush_pending src nets r in
-      if RouterCache.zmem (Z.of_N n) nets then (keep, DFrame src rt a :: o) else ((n, (rt, a)) :: keep, o)
+  | (n', (rt, a)) :: r =>
+      let '(keep, o) := flush_net src n r in
+      if Z.of_N n' =? n then (keep, DFrame src rt a :: o) else ((n', (rt, a)) :: keep, o)
+  end.
+Fixpoint flush_pending (src : Z) (nets : list Z) (p : list (N * (option (N * list N) * apdu)))
+  : list (N * (option (N * list N) * apdu)) * list dout :=
+  match nets with
+  | [] => (p, [])
+  | n :: r => let '(k1, o1) := flush_net src n p in
+              let '(k2, o2) := flush_pending src r k1 in (k2, o1 ++ o2)
   end.
 
 Definition nse_rx (st : dev_state) (f : frame) (msg : Npci.msg) : dev_state * list dout :=
@@ -224,8 +233,6 @@ Definition nse_rx (st : dev_state) (f : frame) (msg : Npci.msg) : dev_state * li
       match RouterCache.update_router_info (d_cache st) NONE_NET (mac_code (f_src f)) zn ROUTER_AVAILABLE with
       | Err _ => (st, [])
       | Ok ca =>
-          (* `for dnet in list: pending_nets.get(dnet)`: per network, oldest first; one pass here because the
-             correspondence observes the multiset per destination (see docs/C10.md) *)
           let '(keep, o) := flush_pending (mac_code (f_src f)) zn (d_pending st) in
           (set_net ca keep st, o)
       end
